@@ -205,12 +205,12 @@ Proof. intros ->. eexists. reflexivity. Qed.
 
 (* the cues the schedule denotes are the plain cues *)
 Lemma cues_from_rows f l i r : i_rows i <> [] ->
-  cues_from f l (i :: r) = mkTcue (i_t i - f) (match r with j :: _ => i_t j | [] => l end - f) (inst_lines (g0_table (i_cs i)) (i_rows i)) :: cues_from f l r.
+  cues_from 0 f l (i :: r) = mkTcue (i_t i - f) (match r with j :: _ => i_t j | [] => l end - f) (inst_lines (g0_table (i_cs i)) (i_rows i)) :: cues_from 0 f l r.
 Proof. intros H. cbn [cues_from]. destruct (i_rows i); [contradiction | reflexivity]. Qed.
-Lemma cues_from_erase f l e r : cues_from f l (erase_at e :: r) = cues_from f l r.
+Lemma cues_from_erase f l e r : cues_from 0 f l (erase_at e :: r) = cues_from 0 f l r.
 Proof. reflexivity. Qed.
 
-Lemma cues_plain last : forall p, Forall cue_ok p -> ttx_to_plain (cues_from 0 last (insts_of_plain p)) = p.
+Lemma cues_plain last : forall p, Forall cue_ok p -> ttx_to_plain (cues_from 0 0 last (insts_of_plain p)) = p.
 Proof.
   induction p as [|[[s e] ls] r IH]; intros H; [reflexivity|]. inversion H as [|? ? Hc Hr]; subst. specialize (IH Hr).
   destruct Hc as [_ _ _ _ Hne _ Hl]. cbn [fst snd] in *.
@@ -242,6 +242,27 @@ Proof.
   rewrite !map_map. reflexivity.
 Qed.
 
+(* the plain multiplexing carries no designation packet *)
+Lemma ttx_row_no_desig row cells : 1 <= row <= 25 -> desig_ok 8 (ttx_row_unit row cells) = false.
+Proof.
+  intros Hr. unfold desig_ok, ttx_row_unit. rewrite (unit_addr_enc 231 8 row _ (mag_addr_ok 8 row ltac:(lia) ltac:(lia))).
+  destruct (N.eqb_spec row 28); [lia|]. destruct (N.eqb_spec row 29); [lia|]. reflexivity.
+Qed.
+Lemma desig_inst_plain i st : rows_good (i_rows i) -> desig_inst 8 st (imux_of i) = st.
+Proof.
+  intros Hg. unfold desig_inst, imux_of. cbn [im_body im_tail].
+  assert (H : forall rows, (forall k sp, In (k, sp) rows -> 1 <= k <= 25) ->
+              fold_left (fun a x => desig_recv 8 a (snd (snd x))) (map (fun r => (i_t i, (true, ttx_row_unit (fst r) (row_cells (snd r))))) rows) st = st).
+  { induction rows as [|[k sp] r IH]; intros Hk; [reflexivity|]. cbn [map fold_left fst snd]. unfold desig_recv at 2.
+    rewrite (ttx_row_no_desig k _ (Hk k sp (or_introl eq_refl))). apply IH. intros k' sp' Hin. apply (Hk k' sp'). right. exact Hin. }
+  apply H. intros k sp Hin. destruct (Hg k sp Hin) as (Hk & _). exact Hk.
+Qed.
+Lemma desig_final_plain l : Forall inst_fine l -> fold_left (desig_inst 8) (map imux_of l) (None, None) = (None, None).
+Proof.
+  induction l as [|i r IH]; intros H; [reflexivity|]. inversion H as [|? ? Hi Hr]; subst. cbn [map fold_left].
+  destruct Hi as (Hg & _). rewrite (desig_inst_plain i _ Hg). apply IH. exact Hr.
+Qed.
+
 Theorem ttx_plain_faithful : plain_faithful 1000000 ttx_plain_ok ttx_enc ttx_dec.
 Proof.
   intros p Hok. unfold ttx_plain_ok, ttx_plain_okb in Hok. apply andb_true_iff in Hok. destruct Hok as [Hok Hchain].
@@ -267,7 +288,9 @@ Proof.
   { unfold peses. destruct p as [|[[s0 e0] ls0] r]; [reflexivity|]. apply Z.eqb_eq in Hfirst. subst s0.
     cbn [insts_of_plain map tmin pes_of pes_time inst_of i_t]. rewrite tmin_zero; [reflexivity|].
     inversion Hfine as [|? ? _ Hrest]; subst. eapply Forall_impl; [|exact Hrest]. intros i (_ & _ & _ & Ht). exact Ht. }
-  rewrite Hmin. unfold cues_of, s, sched_of_plain. cbn [s_insts]. rewrite (cues_plain _ p Hc). symmetry. apply ptrunc_grid. exact Hc.
+  assert (Hdes : desig_final true (s_mag s) m = 0).
+  { unfold desig_final, s, m, sched_of_plain, mux_of_plain. cbn [s_mag mx_insts]. rewrite (desig_final_plain _ Hfine). reflexivity. }
+  rewrite Hmin, Hdes. unfold cues_of, s, sched_of_plain. cbn [s_insts]. rewrite (cues_plain _ p Hc). symmetry. apply ptrunc_grid. exact Hc.
 Qed.
 
 (* ts -> any plain-faithful destination *)
